@@ -507,6 +507,9 @@ func runC16(c *Ctx) {
 		// R8: snapshot ids: the rollback point ExecuteTransaction takes on the root store must not
 		// be replaced by a snapshot a command takes through a prefix view of the same store
 		checkTableAndCounterTogether(c, "C16.R8 snapshot-ids-do-not-collide", "db/diffdb", "Database")
+		// R8b: … nor by a later snapshot that is given the id of one released in between (a command's
+		// own snapshot is never released unless restored; ExecuteTransaction releases its own)
+		checkIDsNeverReused(c, "C16.R8 snapshot-id-never-reused", "db/diffdb", "Database")
 		// R9: a read through the staged store (e.g. by a concurrent transaction verification) must
 		// not undo what a command wrote: no write to the overlay under a re-acquired lock on the
 		// strength of a lookup made before the lock was given up (the E1 rule C20.R11)
